@@ -297,6 +297,376 @@ struct Exec {
         out.probes["align.hierarchy_checked"]++;
     }
 
+    // ---- C11: the lattice is a well-formed, time-consistent graph of grammar paths
+    bool lat_is_connector(const Lat &L, int n) const
+    {
+        const LatNode &x = L.nodes[(size_t)n];
+        return (n == L.start && x.word == "<s>") || (n == L.end && x.word == "</s>");
+    }
+    void check_lattice(DecState &s, const Lat &L, const Rec &r, int opi)
+    {
+        if (L.null)
+            return;
+        out.checks++;
+        auto bad = [&](const char *inv, const std::string &trig, const std::string &msg) { viol("C11", inv, trig, msg, opi); };
+        const size_t N = L.nodes.size();
+        if (L.start < 0 || L.end < 0) {
+            bad("single_start_end", "missing", "lattice without start or end node");
+            return;
+        }
+        for (auto &l : L.links)
+            if (l.to < 0) {
+                bad("wellformed", "dangling_link", "link to a node that is not in the node list");
+                return;
+            }
+        // reachability from start / co-reachability to end
+        std::vector<char> fwd(N, 0), bwd(N, 0);
+        {
+            std::vector<int> q = { L.start };
+            fwd[(size_t)L.start] = 1;
+            while (!q.empty()) {
+                int n = q.back();
+                q.pop_back();
+                for (int li : L.nodes[(size_t)n].exits) {
+                    int t = L.links[(size_t)li].to;
+                    if (!fwd[(size_t)t]) { fwd[(size_t)t] = 1; q.push_back(t); }
+                }
+            }
+            q = { L.end };
+            bwd[(size_t)L.end] = 1;
+            while (!q.empty()) {
+                int n = q.back();
+                q.pop_back();
+                for (int li : L.nodes[(size_t)n].entries) {
+                    int f = L.links[(size_t)li].from;
+                    if (!bwd[(size_t)f]) { bwd[(size_t)f] = 1; q.push_back(f); }
+                }
+            }
+        }
+        for (size_t n = 0; n < N; ++n) {
+            if (!fwd[n])
+                bad("on_start_end_path", "unreachable", "node " + L.nodes[n].word + "@" + std::to_string(L.nodes[n].sf) + " cannot be reached from the start node");
+            if (!bwd[n])
+                bad("on_start_end_path", "dead_end", "node " + L.nodes[n].word + "@" + std::to_string(L.nodes[n].sf) + " cannot reach the end node");
+        }
+        if (!L.nodes[(size_t)L.start].entries.empty())
+            bad("single_start_end", "start_has_entries", "the start node has incoming links");
+        if (!L.nodes[(size_t)L.end].exits.empty())
+            bad("single_start_end", "end_has_exits", "the end node has outgoing links");
+        // acyclic (Kahn)
+        std::vector<int> topo;
+        {
+            std::vector<int> indeg(N, 0);
+            for (auto &l : L.links)
+                indeg[(size_t)l.to]++;
+            std::vector<int> q;
+            for (size_t n = 0; n < N; ++n)
+                if (!indeg[n])
+                    q.push_back((int)n);
+            while (!q.empty()) {
+                int n = q.back();
+                q.pop_back();
+                topo.push_back(n);
+                for (int li : L.nodes[(size_t)n].exits)
+                    if (--indeg[(size_t)L.links[(size_t)li].to] == 0)
+                        q.push_back(L.links[(size_t)li].to);
+            }
+            if (topo.size() != N) {
+                bad("acyclic", "cycle", "the lattice has a cycle");
+                return;
+            }
+        }
+        // time adjacency
+        for (auto &l : L.links) {
+            const LatNode &u = L.nodes[(size_t)l.from], &v = L.nodes[(size_t)l.to];
+            std::string name = u.word + "@" + std::to_string(u.sf) + "[" + std::to_string(u.fef) + ".." + std::to_string(u.lef) + "] -> " + v.word + "@" + std::to_string(v.sf) + " ef " + std::to_string(l.ef);
+            if (v.sf < 0 || v.sf > L.n_frames || u.sf < 0)
+                bad("time", "outside_utterance", name + " lies outside the utterance of " + std::to_string(L.n_frames) + " frames");
+            if (lat_is_connector(L, l.from)) {
+                if (v.sf != 0)
+                    bad("time", "start_connector", name + ": successor of the start connector does not start at frame 0");
+            } else if (lat_is_connector(L, l.to)) {
+                // all words joined by the end connector end in the same frame: the last frame in which anything ends
+                int last = -1;
+                for (auto &nn : L.nodes)
+                    if (&nn != &v)
+                        last = std::max(last, nn.lef);
+                if (u.lef != last)
+                    bad("time", "end_connector", name + ": predecessor of the end connector does not end at the last end frame " + std::to_string(last));
+            } else {
+                if (l.ef < u.fef || l.ef > u.lef)
+                    bad("time", "ef_outside_node_range", name + ": link end frame outside the node's end-frame range");
+                if (v.sf != l.ef + 1)
+                    bad("time", "not_adjacent", name + ": successor does not start on the frame after the link's end frame");
+            }
+        }
+        // labels along ANY path form a path of the reference automaton: product construction, propagated in
+        // topological order; per node the set of distinct automaton state sets that some path prefix reaches
+        if (s.has_grammar && fwd[(size_t)L.end]) {
+            const Nfa &A = s.nfa;
+            auto closure = [&](std::set<int> st) {
+                std::vector<int> q(st.begin(), st.end());
+                while (!q.empty()) {
+                    int x = q.back();
+                    q.pop_back();
+                    for (auto &arc : A.arcs)
+                        if (arc.from == x && arc.label.empty() && st.insert(arc.to).second)
+                            q.push_back(arc.to);
+                }
+                return st;
+            };
+            auto step = [&](const std::set<int> &st, const std::string &w) {
+                std::set<int> nx;
+                for (auto &arc : A.arcs)
+                    if (!arc.label.empty() && arc.label == w && st.count(arc.from))
+                        nx.insert(arc.to);
+                return closure(nx);
+            };
+            std::vector<std::set<std::set<int>>> at(N);
+            bool overflow = false, reported = false;
+            auto consume = [&](int n, const std::set<int> &in) {
+                const LatNode &x = L.nodes[(size_t)n];
+                if (lat_is_connector(L, n) || is_filler(s, x.word))
+                    return in;
+                return step(in, base_of(x.word));
+            };
+            {
+                std::set<int> st0 = closure({ A.start });
+                at[(size_t)L.start].insert(consume(L.start, st0));
+            }
+            for (int n : topo) {
+                if (!fwd[(size_t)n])
+                    continue;
+                for (auto &st : at[(size_t)n]) {
+                    if (st.empty() && !reported) {
+                        reported = true;
+                        bad("grammar_path", s.gkind, "some lattice path through " + L.nodes[(size_t)n].word + "@" + std::to_string(L.nodes[(size_t)n].sf) +
+                                " spells a word sequence that is not a path of the active " + s.gkind + " grammar");
+                    }
+                    for (int li : L.nodes[(size_t)n].exits) {
+                        int t = L.links[(size_t)li].to;
+                        if (at[(size_t)t].size() > 300) {
+                            overflow = true;
+                            continue;
+                        }
+                        at[(size_t)t].insert(consume(t, st));
+                    }
+                }
+            }
+            if (overflow)
+                out.other["C11.grammar_path_check_truncated"]++;
+            out.probes["lat.grammar_product_checked"]++;
+        }
+        // the first-best segmentation occurs as a lattice path
+        if (!r.seg_null) {
+            std::vector<const SegR *> segs;
+            for (auto &g : r.segs)
+                if (g.word != "(NULL)")
+                    segs.push_back(&g);
+            if (!segs.empty()) {
+                // cand[k] = lattice nodes that can stand for segment k
+                std::set<int> cur;
+                for (size_t n = 0; n < N; ++n)
+                    if (L.nodes[n].word == segs[0]->word && L.nodes[n].sf == segs[0]->sf)
+                        cur.insert((int)n);
+                size_t k = 0;
+                for (; k + 1 < segs.size() && !cur.empty(); ++k) {
+                    std::set<int> nx;
+                    for (int n : cur)
+                        for (int li : L.nodes[(size_t)n].exits) {
+                            const LatLink &l = L.links[(size_t)li];
+                            const LatNode &v = L.nodes[(size_t)l.to];
+                            if (l.ef == segs[k]->ef && v.word == segs[k + 1]->word && v.sf == segs[k + 1]->sf)
+                                nx.insert(l.to);
+                        }
+                    cur.swap(nx);
+                }
+                bool ok = false;
+                for (int n : cur)
+                    if (segs.back()->ef >= L.nodes[(size_t)n].fef && segs.back()->ef <= L.nodes[(size_t)n].lef)
+                        ok = true;
+                // trigger: a result that ends before the last frame searched is the known corner (see known_findings.json)
+                if (!ok)
+                    bad("first_best_in_lattice", segs.back()->ef < L.n_frames - 1 ? "result_ends_before_last_frame" : k + 1 < segs.size() ? "link_missing" : (cur.empty() ? "node_missing" : "end_frame"),
+                        "the first-best segmentation is not a lattice path (lost at segment " + std::to_string(k) + " '" + segs[k]->word + "' [" + std::to_string(segs[k]->sf) + "," +
+                            std::to_string(segs[k]->ef) + "]); lattice: " + L.canon().substr(0, 700));
+                out.probes["lat.first_best_checked"]++;
+            }
+        }
+        out.probes["lat.checked"]++;
+        if (lat_is_connector(L, L.start))
+            out.probes["lat.start_connector"]++;
+        if (lat_is_connector(L, L.end))
+            out.probes["lat.end_connector"]++;
+    }
+
+    // real-word sequence along SOME start->end path?  (product of lattice and word sequence)
+    bool lattice_spells(DecState &s, const Lat &L, const std::vector<std::string> &words)
+    {
+        std::set<std::pair<int, size_t>> seen;
+        std::vector<std::pair<int, size_t>> q;
+        auto enter = [&](int n, size_t pos) {
+            const LatNode &x = L.nodes[(size_t)n];
+            if (!(lat_is_connector(L, n) || is_filler(s, x.word))) {
+                if (pos >= words.size() || base_of(x.word) != words[pos])
+                    return;
+                pos++;
+            }
+            if (seen.insert({ n, pos }).second)
+                q.push_back({ n, pos });
+        };
+        enter(L.start, 0);
+        while (!q.empty()) {
+            auto cur = q.back();
+            q.pop_back();
+            if (cur.first == L.end && cur.second == words.size())
+                return true;
+            for (int li : L.nodes[(size_t)cur.first].exits)
+                enter(L.links[(size_t)li].to, cur.second);
+        }
+        return false;
+    }
+
+    // ---- C12: N-best order, N-best hypotheses are lattice paths, best path is maximal, posteriors sane
+    void check_nbest(DecState &s, const Lat &L, int k, bool abandon, int opi)
+    {
+        auto bad = [&](const char *inv, const std::string &trig, const std::string &msg) { viol("C12", inv, trig, msg, opi); };
+        hyp_iter_t *it = decoder_nbest(s.d);
+        int n = 0;
+        int32 prev = 0;
+        bool have_prev = false;
+        while (it) {
+            int32 sc = SCORE_SENTINEL;
+            const char *h = hyp_iter_hyp(it, &sc);
+            std::string hyp = h ? h : "";
+            out.events.str(hyp);
+            out.events.i64(sc);
+            out.checks++;
+            if (have_prev && sc > prev)
+                bad("nbest_order", "increase", "N-best entry " + std::to_string(n) + " scores " + std::to_string(sc) + " after " + std::to_string(prev));
+            prev = sc;
+            have_prev = true;
+            std::vector<std::string> words;
+            {
+                std::string cur;
+                for (char c : hyp + " ") {
+                    if (c == ' ') {
+                        if (!cur.empty())
+                            words.push_back(base_of(cur));
+                        cur.clear();
+                    } else
+                        cur += c;
+                }
+            }
+            if (!L.null && L.start >= 0 && L.end >= 0 && !lattice_spells(s, L, words))
+                bad("nbest_is_lattice_path", "words", "N-best entry " + std::to_string(n) + " '" + hyp + "' is not the word sequence of any start-to-end lattice path");
+            // the node walk follows existing links
+            seg_iter_t *sg = hyp_iter_seg(it);
+            std::set<int> cands; // lattice nodes that can stand for the previous segment (several share word and start frame)
+            bool first_seg = true, walk_ok = true;
+            for (; sg; sg = seg_iter_next(sg)) {
+                const char *w = seg_iter_word(sg);
+                int sf, ef;
+                seg_iter_frames(sg, &sf, &ef);
+                std::set<int> nx;
+                for (size_t q = 0; q < L.nodes.size(); ++q) {
+                    if (L.nodes[q].word != (w ? w : "") || L.nodes[q].sf != sf)
+                        continue;
+                    if (first_seg)
+                        nx.insert((int)q);
+                    else
+                        for (int pn : cands)
+                            for (int li : L.nodes[(size_t)pn].exits)
+                                if (L.links[(size_t)li].to == (int)q)
+                                    nx.insert((int)q);
+                }
+                if (nx.empty())
+                    walk_ok = false;
+                else
+                    cands.swap(nx);
+                first_seg = false;
+            }
+            if (!walk_ok && !L.null)
+                bad("nbest_is_lattice_path", "node_walk", "the segmentation of N-best entry " + std::to_string(n) + " does not follow lattice links");
+            ++n;
+            out.probes["nbest.entries"]++;
+            if (n >= k) {
+                if (abandon) {
+                    hyp_iter_free(it);
+                    out.probes["nbest.abandoned"]++;
+                    it = nullptr;
+                    break;
+                }
+            }
+            if (n >= 200)
+                { hyp_iter_free(it); it = nullptr; break; }
+            it = hyp_iter_next(it);
+        }
+        if (n > 1)
+            out.probes["nbest.several_entries"]++;
+    }
+
+    void check_posteriors(DecState &s, lattice_t *dag, const Lat &L, int opi)
+    {
+        auto bad = [&](const char *inv, const std::string &trig, const std::string &msg) { viol("C12", inv, trig, msg, opi); };
+        if (L.null || L.start < 0 || L.end < 0 || L.nodes[(size_t)L.end].entries.empty())
+            return;
+        float32 ascale = (float32)(1.0 / config_float(s.d->config, "ascale"));
+        latlink_t *best = lattice_bestpath(dag, ascale);
+        out.checks++;
+        // independent longest-path DP over the (acyclic) link list
+        const size_t N = L.nodes.size();
+        std::vector<int64_t> bestto(N, INT64_MIN);
+        std::vector<int> indeg(N, 0), q;
+        for (auto &l : L.links)
+            indeg[(size_t)l.to]++;
+        for (size_t n = 0; n < N; ++n)
+            if (!indeg[n])
+                q.push_back((int)n);
+        bestto[(size_t)L.start] = 0;
+        size_t seen = 0;
+        while (!q.empty()) {
+            int n = q.back();
+            q.pop_back();
+            ++seen;
+            for (int li : L.nodes[(size_t)n].exits) {
+                const LatLink &l = L.links[(size_t)li];
+                if (bestto[(size_t)n] != INT64_MIN && bestto[(size_t)n] + l.ascr > bestto[(size_t)l.to])
+                    bestto[(size_t)l.to] = bestto[(size_t)n] + l.ascr;
+                if (--indeg[(size_t)l.to] == 0)
+                    q.push_back(l.to);
+            }
+        }
+        if (seen != N)
+            return; // cyclic: C11's business
+        if (!best)
+            bad("bestpath_maximal", "none", "lattice_bestpath found no path although the end node has entries");
+        else if ((int64_t)best->path_scr != bestto[(size_t)L.end])
+            bad("bestpath_maximal", best->path_scr < bestto[(size_t)L.end] ? "not_maximal" : "not_achievable",
+                "lattice_bestpath score " + std::to_string(best->path_scr) + ", best start-to-end path by independent DP " + std::to_string(bestto[(size_t)L.end]));
+        out.events.i64(best ? best->path_scr : 0);
+        int32 post = lattice_posterior(dag, ascale);
+        out.events.i64(post);
+        const int64_t eps = std::max<int64_t>(64, 4 * (int64_t)L.links.size());
+        if (post > eps)
+            bad("posterior_range", "best_path", "posterior of the best path " + std::to_string(post) + " (log) exceeds one");
+        int32 zero = logmath_get_zero(dag->lmath);
+        // every link posterior <= 1; forward total (norm) = backward total over the start node's exits
+        int32 back = zero;
+        for (auto &l : L.links) {
+            const latlink_t *ll = (const latlink_t *)l.ptr;
+            int32 p = ps_latlink_prob(dag, (latlink_t *)ll, NULL);
+            out.checks++;
+            if (ll->alpha > zero / 2 && ll->beta > zero / 2 && p > eps)
+                bad("posterior_range", "link", "link posterior " + std::to_string(p) + " (log) exceeds one by more than the rounding bound " + std::to_string(eps));
+            if (l.from == L.start)
+                back = logmath_add(dag->lmath, back, ll->beta + (int32)((ll->ascr << SENSCR_SHIFT) * ascale));
+        }
+        if (std::llabs((int64_t)back - (int64_t)dag->norm) > eps)
+            bad("forward_backward_agree", "totals", "forward total " + std::to_string(dag->norm) + " and backward total " + std::to_string(back) + " differ by more than " + std::to_string(eps));
+        out.probes["lat.posteriors_checked"]++;
+    }
+
     // ---- ops
     bool load_grammar(DecState &s, const Json &g, int opi)
     {
@@ -378,6 +748,25 @@ struct Exec {
             if (it)
                 seg_iter_free(it);
             out.probes["dec.seg_iter_abandoned"]++;
+        } else if (what == "lattice" || what == "nbest" || what == "post") {
+            Rec r = capture(s.d);
+            lattice_t *dag = decoder_lattice(s.d);
+            Lat L = capture_lattice(dag);
+            out.events.str(L.canon());
+            out.probes[L.null ? "lat.null" : "lat.built"]++;
+            if (!final && !L.null)
+                out.probes["lat.mid_utterance"]++;
+            check_record(s, r, final, opi);
+            check_lattice(s, L, r, opi);
+            // asking again without new audio returns the same object
+            lattice_t *again = decoder_lattice(s.d);
+            out.checks++;
+            if (again != dag)
+                viol("C11", "cache_identity", "second_request", "a second decoder_lattice() without new audio returned a different object", opi);
+            if (what == "nbest" && dag)
+                check_nbest(s, L, (int)op.geti("k", 5), op.getb("abandon"), opi);
+            if (what == "post" && dag)
+                check_posteriors(s, dag, L, opi);
         } else if (what == "align") {
             Rec r = capture(s.d);
             capture_alignment(s.d, r);
@@ -421,6 +810,27 @@ struct Exec {
             check_alignment(s, r, opi);
         }
         Json rj = r.to_json(true);
+        if (s.probe && profile == "C08") {
+            // C08 compares the lattice and the first N-best entries too
+            lattice_t *dag = decoder_lattice(s.d);
+            rj.set("lattice", capture_lattice(dag).canon());
+            Json nb = Json::array();
+            if (dag) {
+                hyp_iter_t *it = decoder_nbest(s.d);
+                for (int n = 0; it && n < 10; ++n) {
+                    int32 sc = 0;
+                    const char *h = hyp_iter_hyp(it, &sc);
+                    Json e = Json::array();
+                    e.push(h ? h : "");
+                    e.push((long long)sc);
+                    nb.push(e);
+                    it = hyp_iter_next(it);
+                }
+                if (it)
+                    hyp_iter_free(it);
+            }
+            rj.set("nbest", nb);
+        }
         out.events.str(rj.dump());
         check_record(s, r, true, opi);
         if (r.n_frames - 1 != (int)F && rv >= 0)
@@ -456,7 +866,7 @@ struct Exec {
         }
         // name the first differing field
         std::string field = "record";
-        for (const char *k : { "n_frames", "hyp", "score", "segs", "align" })
+        for (const char *k : { "n_frames", "hyp", "score", "segs", "align", "lattice", "nbest" })
             if (g[k].dump() != w[k].dump()) {
                 field = k;
                 break;
@@ -694,7 +1104,9 @@ struct Gen {
             double b = r.pick(beams);
             k.set("beam", b);
             k.set("pbeam", r.chance(0.7) ? b : r.pick(beams));
-            k.set("wbeam", r.pick(wbeams));
+            // (lattice construction is quadratic in the number of word exits: the lattice profiles keep the word beam at
+            // its default or narrower, performance being outside what simulation decides)
+            k.set("wbeam", lat_rate > 0.5 ? r.pick(std::vector<double> { 7e-29, 7e-29, 1e-15, 1e-8 }) : r.pick(wbeams));
         }
         if (r.chance(0.3))
             k.set("fsgusefiller", r.chance(0.5));
@@ -766,10 +1178,23 @@ struct Gen {
             op.set("g", grammar::gen_fsg(r, lang(lng).vocab));
         push(op, d);
     }
+    double lat_rate = 0.0; // C11/C12 (and C08's probe): share of queries that are lattice / N-best / posterior requests
     Json query(bool allow_align)
     {
         Json q = Json::object();
         q.set("op", "query");
+        if (r.chance(lat_rate)) {
+            switch (r.weighted({ 45, 30, 25 })) {
+            case 0: q.set("what", "lattice"); break;
+            case 1:
+                q.set("what", "nbest");
+                q.set("k", (long long)r.range(1, 12));
+                q.set("abandon", r.chance(0.4));
+                break;
+            default: q.set("what", "post");
+            }
+            return q;
+        }
         switch (r.weighted({ align_heavy ? 15 : 50, align_heavy ? 5 : 15, align_heavy ? 5 : 15, allow_align ? (align_heavy ? 75 : 20) : 0 })) {
         case 0: q.set("what", "rec"); break;
         case 1: q.set("what", "hyp"); break;
@@ -904,13 +1329,15 @@ static const char *pick_tmpl(Rng &r)
 
 struct DecWorld : World {
     const char *name() const override { return "dec"; }
-    std::vector<std::string> properties() const override { return { "C01", "C03", "C04", "C07", "C08" }; }
+    std::vector<std::string> properties() const override { return { "C01", "C03", "C04", "C07", "C08", "C11", "C12" }; }
     int64_t default_runs(const std::string &p, int tier) const override
     {
         if (p == "C07" || p == "C08")
             return p == "C08" ? (tier ? 30000 : 600) : (tier ? 40000 : 900);
         if (p == "C04")
             return tier ? 50000 : 1000;
+        if (p == "C11" || p == "C12")
+            return tier ? 50000 : 1200;
         return tier ? 60000 : 1600;
     }
     int watchdog_s(const std::string &) const override { return 120; }
@@ -930,6 +1357,17 @@ struct DecWorld : World {
             return common + "C08: 2-3 decoders with 1-5 earlier utterances each (any grammar/audio/mode/outcome), interleaved call by call, then a probe utterance (decoded twice) whose "
                             "record must equal that of a pristine sibling process. Non-trivial: the probed decoder had at least one earlier utterance and the probe produced a "
                             "segmentation; distinct = distinct plan digest";
+        if (p == "C11")
+            return common + "C11: decoder_lattice is requested at plan-chosen instants (mid-utterance, after the end, twice without new audio; narrow beams and truncated audio so that the "
+                            "best path misses the final state). Checked on every lattice: single start/end, every node on a start-to-end path, acyclic (Kahn), every link joins an end frame in "
+                            "the source's range to a node starting on the next frame inside the utterance (for the zero-length <s>/</s> connector nodes: successor starts at 0 / predecessor "
+                            "ends at the last frame), the labels along ANY path form a path of the reference automaton (product construction in topological order), the first-best "
+                            "segmentation is a lattice path, second request returns the same object. Non-trivial: at least one non-NULL lattice was checked; distinct = distinct plan digest";
+        if (p == "C12")
+            return common + "C12: N-best iterators consumed to a plan-chosen length (and abandoned or run dry), on lattices taken at plan-chosen instants: scores non-increasing, each entry the "
+                            "word sequence of a start-to-end lattice path and its node walk follows links; lattice_bestpath score = independent longest-path DP; after lattice_posterior every "
+                            "link posterior and the best-path posterior <= 1 within the log-add rounding bound, forward total = backward total. Non-trivial: at least one N-best entry or one "
+                            "posterior computation was checked; distinct = distinct plan digest";
         if (p == "C04")
             return common + "C04: decoder_alignment is requested at plan-chosen points (mid-utterance on partial results, twice in a row, again after more audio, after end_utt; grow and "
                             "circular buffering; compallsen and default scoring; wip=pip=1 in most runs). Every non-NULL alignment is checked: words = dictionary words of the segmentation "
@@ -1039,6 +1477,17 @@ struct DecWorld : World {
             int nu = (int)r.weighted({ 0, 65, 30, 5 });
             for (int u = 0; u < nu; ++u)
                 g.utterance(0, t, u == 0 || r.chance(0.5), false, r.chance(0.2), r.chance(0.1), 48000, r.chance(0.8) ? 0.4 : 0.1, r.chance(0.2), r.chance(0.3));
+        } else if (prop == "C11" || prop == "C12") {
+            std::string t = pick_tmpl(r);
+            add_dec(t);
+            g.allow_align = false;
+            g.lat_rate = 0.85;
+            int nu = (int)r.weighted({ 0, 65, 30, 5 });
+            for (int u = 0; u < nu; ++u) {
+                g.utterance(0, t, u == 0 || r.chance(0.5), false, r.chance(0.25), r.chance(0.1), 32000, r.chance(0.7) ? 0.3 : 0.05, r.chance(0.15), r.chance(0.2));
+                // always look at the final lattice too
+                g.push(g.query(false), 0);
+            }
         } else { // C01, C03
             std::string t = pick_tmpl(r);
             add_dec(t);
@@ -1162,6 +1611,10 @@ struct DecWorld : World {
             out.nontrivial = any_probe && hist && out.probes.count("dec.final_result");
         } else if (prop == "C04")
             out.nontrivial = out.probes.count("align.hierarchy_checked") > 0;
+        else if (prop == "C11")
+            out.nontrivial = out.probes.count("lat.checked") > 0;
+        else if (prop == "C12")
+            out.nontrivial = out.probes.count("nbest.entries") > 0 || out.probes.count("lat.posteriors_checked") > 0;
         else
             out.nontrivial = out.probes.count("dec.final_result") || out.probes.count("dec.partial_result");
     }
